@@ -161,10 +161,30 @@ def alone_values(wd, facts):
             res[h] = vals
     return res
 
+def alone_macros(h):
+    """names that are macros after including the header alone"""
+    inc = os.path.join(REPO, "include")
+    r = subprocess.run(["gcc", "-std=gnu99", "-dM", "-E", "-I" + inc, os.path.join(inc, h)], capture_output=True, text=True)
+    return set(re.findall(r"^#define (\w+)", r.stdout, flags=re.M))
+
+def plain_functions(facts):
+    """{header: [function names it declares that are NOT macros when it is included alone]} - such a name must stay a function
+    (same evaluation of arguments, same conversions) whatever else is included"""
+    out = {}
+    for h, fs in facts.items():
+        am = alone_macros(h)
+        out[h] = sorted(set(f["name"] for f in fs if f["kind"] == "function" and f["h"] == h and f["name"] not in am))
+    return out
+
+PLAIN_FUNCS = {}
+
 def tu_text(order, alone, lang):
     """returns (source, {line number: expression})"""
     t = ["#include <stddef.h>", "#include <stdint.h>"]
     for h in order: t.append('#include "%s"' % h)
+    for h in order:
+        for fn in PLAIN_FUNCS.get(h, ()):
+            t += ["#ifdef %s" % fn, '#error "%s changed meaning: the function is now a macro"' % fn, "#endif"]
     lines = {}
     k = 0
     for h in order:
@@ -203,6 +223,8 @@ def classify(errs):
         msg = re.sub(r"‘|’|'", "'", msg)
         m2 = re.search(r"static assertion failed: \"?([^\"]*) changed meaning", msg)
         if m2: kinds.append("meaning-changed " + m2.group(1)); continue
+        m2 = re.search(r"#error \"?(\w+) changed meaning: the function is now a macro", msg)
+        if m2: kinds.append("function-became-macro " + m2.group(1)); continue
         m2 = re.search(r"(redefinition|redeclaration|conflicting declaration|redeclared|previous|multiple definition) of '?(?:enumerator )?'?([\w ]+)'?", msg)
         if m2: kinds.append("%s %s" % (m2.group(1), m2.group(2).strip())); continue
         kinds.append(re.sub(r"\s+", " ", msg)[:80])
